@@ -166,3 +166,72 @@ def _xc_mf_build(case):
 bounded_check(name="c11-move-front-native", props=["C11"], contract="History._move_front", build=_xc_mf_build, domain=_xc_mf_domain, exhaustive=True,
               label="CPython cross-check: _move_front's contract (final(change_list), has, distinct) evaluated on the real method for every permutation of <= 4 "
                     "(sampled 5) changes x every ordered sub-selection")
+
+# ---- CPython cross-check of selective undo / redo on a real History with stand-in changes ----------------------------------------------------
+class _XcR:
+    def __init__(self, path, folder=False):
+        self.path, self._folder = path, folder
+
+    def is_folder(self):
+        return self._folder
+
+    def contains(self, other):
+        return self is not other and (self.path == "" or other.path.startswith(self.path + "/"))
+
+    def __repr__(self):
+        return "<%s>" % self.path
+
+
+class _XcChange:
+    def __init__(self, name, resources):
+        self.name, self._res = name, resources
+
+    def get_changed_resources(self):
+        return list(self._res)
+
+    def do(self, job_set=None):
+        pass
+
+    def undo(self, job_set=None):
+        pass
+
+    def __repr__(self):
+        return self.name
+
+
+def _xc_su_domain(tier, seed):
+    import itertools
+    res_names = ["a.py", "pkg", "pkg/m.py", "b.py"]
+    shapes = [["a.py"], ["pkg/m.py"], ["pkg"], ["b.py"], ["a.py", "b.py"]]
+    n_max = 4 if tier != "thorough" else 5
+    for n in range(1, n_max + 1):
+        for combo in itertools.product(range(len(shapes)), repeat=n):
+            if n >= 4 and hash(combo) % 7:
+                continue
+            for pick in list(range(n)) + [None]:
+                for drop in (False, True):
+                    yield (combo, pick, drop)
+
+
+def _xc_su_build(case, redo=False):
+    from rope.base.history import History
+    from rope.base import taskhandle
+    combo, pick, drop = case
+    shapes = [["a.py"], ["pkg/m.py"], ["pkg"], ["b.py"], ["a.py", "b.py"]]
+    rs = {p: _XcR(p, p == "pkg") for p in ("a.py", "pkg", "pkg/m.py", "b.py")}
+    changes = [_XcChange("c%d" % i, [rs[p] for p in shapes[k]]) for i, k in enumerate(combo)]
+    h = object.__new__(History)
+    h._maxundos, h.current_change = 100, None
+    h._undo_list, h._redo_list = ([], list(changes)) if redo else (list(changes), [])
+    d = {"self": h, "change": None if pick is None else changes[pick], "task_handle": taskhandle.NullTaskHandle(), "tree": "T", "faults": 0}
+    if not redo:
+        d["drop"] = drop
+    return d
+
+
+bounded_check(name="c11-selective-undo-native", props=["C11"], contract="History.undo#selective", build=_xc_su_build, domain=_xc_su_domain, exhaustive=True,
+              label="CPython cross-check: the selective-undo contract on a real History with stand-in changes over a file, a package and a module inside it: every "
+                    "history of <= 3 (a seventh of those of 4) changes x every chosen change or none x drop")
+bounded_check(name="c11-selective-redo-native", props=["C11"], contract="History.redo#selective", build=lambda c: _xc_su_build(c, redo=True),
+              domain=lambda t, s: [c for c in _xc_su_domain(t, s) if not c[2]], exhaustive=True,
+              label="CPython cross-check: the selective-redo contract on the same domain")
